@@ -200,3 +200,69 @@ Proof.
       destruct Hx as [H1 [H2 [H3 H4]]]. destruct c; congruence. }
   destruct H as [k ->]. eauto.
 Qed.
+
+(* ---- C06: the frame of the link step.  Linking keeps the image's length and rewrites only the bytes
+   that a deferred link covers; every other byte of the output is the byte that was placed. ---- *)
+Definition link_width (k : lkind) : nat :=
+  match k with LByte | LSByte => 1 | LWord => 2 | LSpace len => len | LAssert => 0 end.
+Definition covers (l : link) (i : nat) : Prop := (l_off l <= i < l_off l + link_width (l_kind l))%nat.
+
+Lemma set_nth_frame off b : forall d d',
+  set_nth off b d = Some d' ->
+  length d' = length d /\ forall i, i <> off -> nth_error d' i = nth_error d i.
+Proof.
+  induction off as [|k IH]; intros [|x d] d' H; cbn [set_nth] in H; try discriminate.
+  - injection H as <-. split; [reflexivity|]. intros [|i] Hi; [congruence|reflexivity].
+  - destruct (set_nth k b d) as [r|] eqn:Er; [|discriminate]. injection H as <-.
+    destruct (IH d r Er) as [Hl Hn]. split; [cbn; congruence|].
+    intros [|i] Hi; [reflexivity|]. cbn [nth_error]. apply Hn. congruence.
+Qed.
+
+Lemma fill_frame b : forall len off d d',
+  fill off len b d = Some d' ->
+  length d' = length d /\ forall i, ~ (off <= i < off + len)%nat -> nth_error d' i = nth_error d i.
+Proof.
+  induction len as [|n IH]; intros off d d' H; cbn [fill] in H.
+  - injection H as <-. auto.
+  - destruct (set_nth off b d) as [d1|] eqn:E1; [|discriminate].
+    destruct (set_nth_frame off b d d1 E1) as [L1 N1].
+    destruct (IH (S off) d1 d' H) as [L2 N2].
+    split; [congruence|]. intros i Hi.
+    rewrite N2 by lia. apply N1. lia.
+Qed.
+
+Lemma apply_link_frame st l d d' :
+  apply_link st l d = Ok d' ->
+  length d' = length d /\ forall i, ~ covers l i -> nth_error d' i = nth_error d i.
+Proof.
+  unfold apply_link, covers. destruct (eval_top st (l_expr l)) as [v| |c]; try discriminate.
+  destruct (l_kind l) as [| | |len|]; cbn [link_width].
+  - destruct (fits_u8 v); [|discriminate]. destruct (set_nth (l_off l) (byte_of v) d) as [r|] eqn:E; cbn [of_patch]; [|discriminate].
+    intro H; injection H as <-. destruct (set_nth_frame _ _ _ _ E) as [L N]. split; [exact L|]. intros i Hi. apply N. lia.
+  - destruct (fits_i8 v); [|discriminate]. destruct (set_nth (l_off l) (byte_of v) d) as [r|] eqn:E; cbn [of_patch]; [|discriminate].
+    intro H; injection H as <-. destruct (set_nth_frame _ _ _ _ E) as [L N]. split; [exact L|]. intros i Hi. apply N. lia.
+  - destruct (fits_u16 v); [|discriminate]. destruct (set_nth (l_off l) (byte_of v) d) as [d1|] eqn:E1; [|discriminate].
+    destruct (set_nth (S (l_off l)) _ d1) as [r|] eqn:E2; cbn [of_patch]; [|discriminate].
+    intro H; injection H as <-.
+    destruct (set_nth_frame _ _ _ _ E1) as [L1 N1]. destruct (set_nth_frame _ _ _ _ E2) as [L2 N2].
+    split; [congruence|]. intros i Hi. rewrite N2 by lia. apply N1. lia.
+  - destruct (fits_u8 v); [|discriminate]. destruct (fill (l_off l) len (byte_of v) d) as [r|] eqn:E; cbn [of_patch]; [|discriminate].
+    intro H; injection H as <-. destruct (fill_frame _ _ _ _ _ E) as [L N]. split; [exact L|]. intros i Hi. apply N. lia.
+  - destruct (v =? 0); [discriminate|]. intro H; injection H as <-. auto.
+Qed.
+
+Theorem link_all_frame st refs ls d d' :
+  link_all st refs ls d = Ok d' ->
+  length d' = length d /\
+  forall i, (forall l, In l ls -> ~ covers l i) -> nth_error d' i = nth_error d i.
+Proof.
+  unfold link_all. destruct (check_refs st refs); try discriminate.
+  revert d. induction ls as [|l ls IH]; intros d H; cbn [apply_links] in H.
+  - injection H as <-. auto.
+  - destruct (apply_link st l d) as [d1| |] eqn:E1; try discriminate.
+    destruct (apply_link_frame st l d d1 E1) as [L1 N1].
+    destruct (IH d1 H) as [L2 N2].
+    split; [congruence|]. intros i Hi.
+    rewrite N2 by (intros l' Hl'; apply Hi; right; exact Hl').
+    apply N1. apply Hi. left. reflexivity.
+Qed.
